@@ -303,3 +303,158 @@ Qed.
 Theorem edges_refine step es base : edge_delay_not_one es = true -> edge_delay_above_step step es = true ->
   add_edges (edge_factor_impl step es) es base = add_edges edge_factor_spec es base.
 Proof. intros H1 H2. apply add_edges_ext. intros e He. now apply edge_factor_ok. Qed.
+
+(* ---------- the Euler loop with DDEHistory is the method-of-steps recurrence ---------- *)
+Lemma spec_eval_ext h1 h2 pos par m md t y : (forall s, h1 s = h2 s) ->
+  spec_eval h1 pos par m md t y = spec_eval h2 pos par m md t y.
+Proof.
+  intros H. unfold spec_eval. apply map_ext. intros r. unfold rhs_val. f_equal. apply map_ext. intros cf.
+  unfold term_val. f_equal. f_equal. apply map_ext. intros f. destruct f; cbn [fval]; try reflexivity.
+  unfold past_val. now rewrite H.
+Qed.
+
+Lemma qn_0 : qn 0 = 0.
+Proof. reflexivity. Qed.
+
+Lemma qn_S i : qn (S i) = qn i + 1.
+Proof.
+  unfold qn. rewrite Nat2Z.inj_succ, <- Z.add_1_r, inject_Z_plus.
+  apply Qc_is_canon. unfold Qcplus. cbn [this Q2Qc].
+  rewrite !Qred_correct. reflexivity.
+Qed.
+
+Lemma step_time_lt i dt : 0 < dt -> qn i * dt < qn (S i) * dt.
+Proof.
+  intros H. rewrite qn_S. apply Qclt_minus_iff.
+  replace ((qn i + 1) * dt + - (qn i * dt)) with dt by ring. exact H.
+Qed.
+
+Lemma incr_snoc : forall l t, incr l -> (l = [] \/ last l 0 < t) -> incr (l ++ [t]).
+Proof.
+  induction l as [|x l IH]; intros t Hinc Hl; [cbn; auto|].
+  destruct Hl as [Hl|Hl]; [discriminate|].
+  destruct l as [|z l].
+  - cbn in *. auto.
+  - cbn [app incr] in *. destruct Hinc as [Hxz Hrest]. split; [exact Hxz|].
+    apply (IH t Hrest). right. exact Hl.
+Qed.
+
+Section RunProof.
+  Variable pos : nat -> nat.
+  Variable par : nat -> Qc.
+  Variable m : model.
+  Variable dt : Qc.
+  Variable junk : nat -> list row.
+  Hypothesis Hg : past_terms_printable m = true.
+  Hypothesis Hdt : 0 < dt.
+
+  (* what the loop maintains: the concrete buffer represents exactly the records of the recurrence *)
+  Definition RInv (h : hist) (recs : list (Qc * row)) (i : nat) : Prop :=
+    Inv h /\ growable h = true /\ combine (ts h) (recorded h) = recs /\ incr (ts h) /\
+    ts h <> [] /\ last (ts h) 0 = qn i * dt.
+
+  Lemma euler_refines : forall n i y h recs, RInv h recs i ->
+    euler_impl pos par m dt dt junk n i y h = Some (euler_spec pos par m dt n i y recs).
+  Proof.
+    induction n as [|n IH]; intros i y h recs (HI & Hgr & Hrec & Hinc & Hne & Hlast); [reflexivity|].
+    cbn [euler_impl euler_spec].
+    rewrite (dde_refines (query h) pos par m (Fixed dt dt) (qn i) y Hg)
+      by (cbn; now apply Qc_eqb_true).
+    assert (E : spec_eval (query h) pos par m (Fixed dt dt) (qn i) y =
+                spec_eval (interp recs) pos par m (Fixed dt dt) (qn i) y).
+    { apply spec_eval_ext. intros s. rewrite <- Hrec. now apply query_is_interp. }
+    rewrite E. set (f := spec_eval (interp recs) pos par m (Fixed dt dt) (qn i) y).
+    set (y' := vadd y (vscale dt f)). set (t' := qn (S i) * dt).
+    destruct (update h (junk i) t' y') as [h'|] eqn:U.
+    - destruct (update_inv h (junk i) t' y' h' HI U) as (HI' & Hr' & Ht' & Hg' & _).
+      rewrite (IH (S i) y' h' (recs ++ [(t', y')])); [reflexivity|].
+      unfold RInv. split; [exact HI'|]. split; [congruence|]. split; [|split; [|split]].
+      + rewrite Hr', Ht'. rewrite combine_app; [now rewrite Hrec|].
+        rewrite (recorded_length h HI). now destruct HI.
+      + rewrite Ht'. apply incr_snoc; [exact Hinc|]. right. rewrite Hlast. now apply step_time_lt.
+      + rewrite Ht'. now destruct (ts h).
+      + rewrite Ht'. now rewrite last_last.
+    - apply update_none_iff in U. destruct U as [U _]. congruence.
+  Qed.
+
+  Theorem run_refines cap n y0 :
+    run_impl pos par m dt dt junk cap n y0 = Some (run_spec pos par m dt n y0).
+  Proof.
+    unfold run_impl, run_spec. apply euler_refines.
+    destruct (init_inv y0 0 cap true (junk 0)) as (HI & Hrec & _).
+    unfold RInv. split; [exact HI|]. split; [reflexivity|]. split; [|split; [|split]].
+    - rewrite Hrec. reflexivity.
+    - cbn. auto.
+    - discriminate.
+    - cbn. rewrite qn_0. ring.
+  Qed.
+End RunProof.
+
+(* the history the recurrence sees: records (k*dt, y_k), hence y0 before the start and the interpolant afterwards *)
+Fixpoint spec_recs (pos : nat -> nat) (par : nat -> Qc) (m : model) (dt : Qc) (n i : nat) (y : row)
+  (recs : list (Qc * row)) : list (Qc * row) :=
+  match n with
+  | O => recs
+  | S n' =>
+      let f := spec_eval (interp recs) pos par m (Fixed dt dt) (qn i) y in
+      let y' := vadd y (vscale dt f) in
+      spec_recs pos par m dt n' (S i) y' (recs ++ [(qn (S i) * dt, y')])
+  end.
+
+Lemma spec_recs_prefix pos par m dt : forall n i y recs, exists s, spec_recs pos par m dt n i y recs = recs ++ s.
+Proof.
+  induction n as [|n IH]; intros i y recs; cbn [spec_recs]; [exists []; now rewrite app_nil_r|].
+  destruct (IH (S i) (vadd y (vscale dt (spec_eval (interp recs) pos par m (Fixed dt dt) (qn i) y)))
+              (recs ++ [(qn (S i) * dt, vadd y (vscale dt (spec_eval (interp recs) pos par m (Fixed dt dt) (qn i) y)))])) as [s Hs].
+  rewrite Hs, <- app_assoc. eauto.
+Qed.
+
+Theorem prehistory_constant pos par m dt n y0 t : t <= 0 ->
+  interp (spec_recs pos par m dt n 0 y0 [(0, y0)]) t = y0.
+Proof.
+  intros H. destruct (spec_recs_prefix pos par m dt n 0 y0 [(0, y0)]) as [s ->].
+  cbn [app interp]. apply Qcleb_true in H. now rewrite H.
+Qed.
+
+Lemma spec_recs_times pos par m dt : forall n i y recs,
+  times (spec_recs pos par m dt n i y recs) = times recs ++ map (fun k => qn k * dt) (seq (S i) n).
+Proof.
+  induction n as [|n IH]; intros i y recs; cbn [spec_recs seq map]; [now rewrite app_nil_r|].
+  rewrite IH. unfold times. rewrite map_app, <- app_assoc. reflexivity.
+Qed.
+
+(* ---------- helpers for the refutation witnesses ---------- *)
+Lemma row_eqb_refl r : row_eqb r r = true.
+Proof.
+  unfold row_eqb. rewrite Nat.eqb_refl. cbn [andb].
+  induction r as [|a r IH]; [reflexivity|]. cbn [combine forallb fst snd]. rewrite IH, andb_true_r. apply Qeq_bool_iff. reflexivity.
+Qed.
+
+Lemma orow_eqb_some a b : a = Some b -> orow_eqb a b = true.
+Proof. intros ->. apply row_eqb_refl. Qed.
+
+(* ---------- the rewrite x(t-d) -> past(x, d) on token lists ---------- *)
+Lemma span_no_rp_app d rest : forallb (fun a => negb (is_rp a)) d = true ->
+  span_no_rp (d ++ TRp :: rest) = (d, TRp :: rest).
+Proof.
+  induction d as [|a d IH]; intros H; [reflexivity|]. cbn [forallb] in H. apply andb_true_iff in H as [Ha Hd].
+  cbn [app span_no_rp]. apply negb_true_iff in Ha. rewrite Ha. now rewrite (IH Hd).
+Qed.
+
+(* one call  f(t - d)  with a non-empty delay d that contains no ')' : rewritten to past(f, d) unless f is a known
+   function name, in which case it is left exactly as it was; the scan continues behind the call *)
+Theorem rewrite_call t_id past_id excluded fuel f d0 d rest :
+  forallb (fun a => negb (is_rp a)) (d0 :: d) = true ->
+  rewrite_fuel t_id past_id excluded (S fuel) (TId f :: TLp :: TId t_id :: TMinus :: (d0 :: d) ++ TRp :: rest) =
+  if excluded f
+  then TId f :: TLp :: TId t_id :: TMinus :: (d0 :: d) ++ TRp :: rewrite_fuel t_id past_id excluded fuel rest
+  else TId past_id :: TLp :: TId f :: TComma :: (d0 :: d) ++ TRp :: rewrite_fuel t_id past_id excluded fuel rest.
+Proof.
+  intros H. cbn [rewrite_fuel]. rewrite Nat.eqb_refl. rewrite (span_no_rp_app (d0 :: d) rest H). reflexivity.
+Qed.
+
+(* tokens that cannot start a call are copied *)
+Theorem rewrite_other t_id past_id excluded fuel a l :
+  (forall s, a <> TId s) ->
+  rewrite_fuel t_id past_id excluded (S fuel) (a :: l) = a :: rewrite_fuel t_id past_id excluded fuel l.
+Proof. intros H. destruct a; try reflexivity. exfalso. now apply (H s). Qed.
